@@ -666,6 +666,7 @@ func (s *kvSubj[K]) checkC02(o *Oracle, keys []K, vals []string, ms []kvEnt[K]) 
 			o.Fail("C02", "iterator-length", "after %s: iterator yielded %d elements, Keys() has %d", o.cur, i, len(keys))
 		}
 	}
+	s.checkNodeNav(o, keys, vals)
 	nav := s.nav()
 	if nav == nil {
 		return
@@ -939,4 +940,91 @@ func (s *kvSubj[K]) CheckNow(o *Oracle) {
 	o.Sparse = false
 	s.check(o)
 	o.Sparse = sp
+}
+
+// checkNodeNav: node-level navigation must agree with the sorted enumeration (C02): the AVL tree's
+// Node.Next/Prev chains from Left()/Right(), GetNode for present and absent keys, and the red-black
+// tree's IteratorAt(node) as a cursor standing on that key.
+func (s *kvSubj[K]) checkNodeNav(o *Oracle, keys []K, vals []string) {
+	pos := -1
+	if len(keys) > 0 {
+		pos = derive(o.cur.ID, 77, len(keys))
+	}
+	switch t := s.m.(type) {
+	case *avltree.Tree[K, string]:
+		i := 0
+		for n := t.Left(); n != nil && i <= len(keys); n = n.Next() {
+			if i >= len(keys) || s.d.Str(n.Key) != s.d.Str(keys[i]) {
+				o.Fail("C02", "avl-node-next-chain", "after %s: following Node.Next() from Left(), element %d is %s; Keys()=%s", o.cur, i, s.d.Str(n.Key), joinS(keys, s.d.Str))
+				return
+			}
+			i++
+		}
+		if i != len(keys) {
+			o.Fail("C02", "avl-node-next-chain", "after %s: the Node.Next() chain from Left() has %d elements, Keys() has %d", o.cur, i, len(keys))
+			return
+		}
+		i = len(keys) - 1
+		for n := t.Right(); n != nil && i >= -1; n = n.Prev() {
+			if i < 0 || s.d.Str(n.Key) != s.d.Str(keys[i]) {
+				o.Fail("C02", "avl-node-prev-chain", "after %s: following Node.Prev() from Right(), reached %s at reverse position %d; Keys()=%s", o.cur, s.d.Str(n.Key), i, joinS(keys, s.d.Str))
+				return
+			}
+			i--
+		}
+		if i != -1 {
+			o.Fail("C02", "avl-node-prev-chain", "after %s: the Node.Prev() chain from Right() stops %d elements early", o.cur, i+1)
+			return
+		}
+		if pos >= 0 {
+			if n := t.GetNode(keys[pos]); n == nil || s.kclass(n.Key) != s.kclass(keys[pos]) || n.Value != vals[pos] {
+				o.Fail("C02", "getnode", "after %s: GetNode(%s) does not return the node of that key", o.cur, s.d.Str(keys[pos]))
+			}
+		}
+	case *redblacktree.Tree[K, string]:
+		if pos < 0 {
+			return
+		}
+		n := t.GetNode(keys[pos])
+		if n == nil || s.kclass(n.Key) != s.kclass(keys[pos]) || n.Value != vals[pos] {
+			o.Fail("C02", "getnode", "after %s: GetNode(%s) does not return the node of that key", o.cur, s.d.Str(keys[pos]))
+			return
+		}
+		it := t.IteratorAt(n)
+		if s.d.Str(it.Key()) != s.d.Str(keys[pos]) || it.Value() != vals[pos] {
+			o.Fail("C02", "iteratorat", "after %s: IteratorAt(node of %s) stands on %s", o.cur, s.d.Str(keys[pos]), s.d.Str(it.Key()))
+			return
+		}
+		for i := pos + 1; i <= len(keys); i++ {
+			ok := it.Next()
+			if ok != (i < len(keys)) || (ok && s.d.Str(it.Key()) != s.d.Str(keys[i])) {
+				o.Fail("C02", "iteratorat-next", "after %s: IteratorAt(%s) then Next x%d: got ok=%v, Keys()=%s", o.cur, s.d.Str(keys[pos]), i-pos, ok, joinS(keys, s.d.Str))
+				return
+			}
+		}
+		it = t.IteratorAt(n)
+		for i := pos - 1; i >= -1; i-- {
+			ok := it.Prev()
+			if ok != (i >= 0) || (ok && s.d.Str(it.Key()) != s.d.Str(keys[i])) {
+				o.Fail("C02", "iteratorat-prev", "after %s: IteratorAt(%s) then Prev x%d: got ok=%v, Keys()=%s", o.cur, s.d.Str(keys[pos]), pos-i, ok, joinS(keys, s.d.Str))
+				return
+			}
+		}
+	case *btree.Tree[K, string]:
+		if pos < 0 {
+			return
+		}
+		n := t.GetNode(keys[pos])
+		found := false
+		if n != nil {
+			for _, e := range n.Entries {
+				if s.d.Str(e.Key) == s.d.Str(keys[pos]) && e.Value == vals[pos] {
+					found = true
+				}
+			}
+		}
+		if !found {
+			o.Fail("C02", "getnode", "after %s: GetNode(%s) does not return a node holding that key", o.cur, s.d.Str(keys[pos]))
+		}
+	}
 }
